@@ -101,6 +101,10 @@ func SpecVals(t *rapid.T, s *ref.Spec) ref.Vals {
 		for k := range v {
 			v[k] = int64(rapid.IntRange(0, 1).Draw(t, "minor"))
 		}
+	case "DutyCycleReq":
+		if rapid.IntRange(0, 11).Draw(t, "silent") == 0 {
+			v["MaxDCycle"] = 255 // LoRaWAN 1.0 - 1.0.2: "become silent immediately" (see ref.Spec.Encode)
+		}
 	case "ForceRejoinReq":
 		v["RejoinType"] = int64(rapid.SampledFrom([]int{0, 2}).Draw(t, "rejoinType"))
 	case "DeviceModeInd", "DeviceModeConf":
